@@ -8,6 +8,7 @@ import (
 	"fmt"
 	"os"
 	"strconv"
+	"testing"
 
 	sdk "github.com/cosmos/cosmos-sdk/types"
 )
@@ -20,6 +21,10 @@ type vReplayCase struct {
 }
 
 type vAssumeFailed struct{}
+
+// vTestingT is set by the generated replay test (some native environments
+// are built from the repository's testify suite).
+var vTestingT *testing.T
 
 var (
 	vOracle   map[string]interface{}
